@@ -145,6 +145,8 @@ class CTMCUniformGrid(CTMCGrid):
         :param model: Lévy model in scope
         :param truncation_probability: used to define the bounds of the grid
         """
+        # (the step may be given as an integer: the axes are built from it with numpy, which would keep its type)
+        h = float(h)
         l, r = compute_truncation(
             model=model, h=h, truncation_probability=truncation_probability
         )
@@ -174,6 +176,8 @@ class CTMCUniformGrid(CTMCGrid):
         :param nb_of_points: number of points for each axis
         :param dimension: grid dimension
         """
+        # (the step may be given as an integer: the axes are built from it with numpy, which would keep its type)
+        h = float(h)
         axis_right = np.array([k * h for k in range(1, nb_of_points // 2 + 1)])
         axis_left = np.array([-x for x in axis_right[::-1]])
         axis = np.concatenate((axis_left, [0.0], axis_right))
@@ -202,6 +206,8 @@ class CTMCGridProbabilityStep(CTMCGrid):
         :param minimum_probability_step:
         :param dimension: grid dimension
         """
+        # (the step may be given as an integer: the axes are built from it with numpy, which would keep its type)
+        h = float(h)
         axis_left = compute_left_axis(
             h=h,
             levy_measure=model.levy_triplet.nu,
@@ -270,6 +276,8 @@ class CTMCGridGeometric(CTMCGrid):
         :param nb_of_points_on_each_side: number of point for each left/right semi-axis
         :param truncation_probability: truncation probability
         """
+        # (the step may be given as an integer: the axes are built from it with numpy, which would keep its type)
+        h = float(h)
         if nb_of_points_on_each_side < 2:
             raise ValueError("expected nb_of_points_on_each_side >= 2")
         l, r = compute_truncation(
@@ -298,6 +306,8 @@ class CTMCGridGeometric(CTMCGrid):
         :param dimension: grid dimension
         :param nb_of_points_on_each_side: number of points for each (left/right) semi-axis
         """
+        # (the step may be given as an integer: the axes are built from it with numpy, which would keep its type)
+        h = float(h)
         if nb_of_points_on_each_side < 2:
             raise ValueError("expected nb_of_points_on_each_side >= 2")
         l, r = truncations
@@ -326,6 +336,7 @@ class CTMCCredit(CTMCGrid):
         model: Union[LevyModel, LevyCopulaModel],
         symmetric_grid: bool = True,
     ):
+        h = float(h)  # (an integer step would type the axes)
         l, r = compute_truncation(model=model, h=h)
         if (
             isinstance(level_a, float)
